@@ -138,9 +138,9 @@ pub fn main(args: &crate::Args) {
     let quick = rep.is_quick();
     let all = corpus();
     let names: Vec<&str> = if quick {
-        vec!["gray-5x3", "ref-then-blend-alpha16", "anim-12x10-3kf", "layers-chain-two-kf", "rgb-130x130-groups-localtree", "rgb-300x200-groups-unequal-localtrees", "rgba-24x20-patches", "vardct-420-40x24"]
+        vec!["gray-5x3", "ref-then-blend-alpha16", "anim-12x10-3kf", "layers-chain-two-kf", "rgb-130x130-groups-localtree", "rgb-300x200-groups-unequal-localtrees", "rgba-24x20-patches", "vardct-420-40x24", "vardct-lfframe-40x24"]
     } else {
-        vec!["gray-5x3", "rgba-9x7-ans-rct", "ref-then-blend-alpha16", "anim-12x10-3kf", "anim-12x10-muladd-mul", "layers-chain-two-kf", "anim-4x4-six-frames", "rgb-130x130-groups-localtree", "rgb-300x200-groups-unequal-localtrees", "gray-70x40-squeeze-2pass", "rgb-depth-alpha-7x4-orient6", "rgba-24x20-patches", "vardct-420-40x24", "vardct-ycbcr-40x24-noise", "vardct-ycbcr-48x40-gab-epf"]
+        vec!["gray-5x3", "rgba-9x7-ans-rct", "ref-then-blend-alpha16", "anim-12x10-3kf", "anim-12x10-muladd-mul", "layers-chain-two-kf", "anim-4x4-six-frames", "rgb-130x130-groups-localtree", "rgb-300x200-groups-unequal-localtrees", "gray-70x40-squeeze-2pass", "rgb-depth-alpha-7x4-orient6", "rgba-24x20-patches", "vardct-420-40x24", "vardct-ycbcr-40x24-noise", "vardct-ycbcr-48x40-gab-epf", "vardct-lfframe-40x24", "vardct-264x40-2groups-gab-epf"]
     };
     let items: Vec<&crate::corpus::Item> = names.iter().map(|n| all.iter().find(|i| i.name == *n).expect("corpus item")).collect();
     // per item: clean run -> N attempts, reference hashes
